@@ -7,6 +7,8 @@ from .runtime_common import RUNTIME, RUNTIME_ASSUMPTIONS
 def run(tier):
     pr = PropertyRun('C09', tier)
     run_contracts_sel(pr, RUNTIME, tier, 'C09')
+    from .C17 import include_bounded
+    include_bounded(pr, 'C09')
     pr.assumptions += RUNTIME_ASSUMPTIONS + [
         'exactness over whole runs follows from the step obligations (increment once at the head of every statement, limit test immediately after, counter reset only at execute_script entry, every nested run counted in the same counter) by induction over the execution (trusted meta-theorem)',
     ]
